@@ -256,7 +256,9 @@ def _history(rng, core, mode, long=False):
             n1 = rng.randrange(10, 17) if opq else rng.randrange(1, 10)
             y1 = M.stretch(rng, rng.choice([cutoff + 1, start, cutoff - 4, 40, -30]), n1, nan_p, opq, gap_p)
             fh1 = None
-            if mode == "r" or rng.random() < (0.8 if opq else 0.5):
+            # (composites hand the fit's own horizon argument to their components: without one the components hold no
+            #  horizon and a later update(update_params=True) cannot refit them -- opaque forecasters always get one)
+            if mode == "r" or opq or rng.random() < 0.5:
                 # (a horizon-dependent forecaster rejects a refit with another horizon, leaving a half-replaced state:
                 #  composites are only re-fitted with the horizon they have)
                 fh1 = fit_fh if (mode == "r" and (opq or rng.random() < 0.5)) else M.rand_fh(rng, "oos", None, maxh)
